@@ -9,6 +9,7 @@ from vlib import Case, Rng
 
 ID = "C08"
 PROPS_MODULE = "AmqModel.Props.C08"
+EXTRA_PROPS_MODULES = ["AmqModel.Props.C17Loop"]      # the timers around the connection machine (Model/ConnHb.lean)
 NONTRIVIAL_RULE = "a connection close with at least one open channel"
 MODEL_SCOPE = "connection_state.rs Connection.Close / CloseOk arms, serialize.rs SealableOutputBuffer, mod.rs process_channel_message ConnectionClose, write_to_stream, is_connection_done"
 ASSUMPTIONS = ["A1 amq-protocol parse/gen; A2 FIFO queues"]
